@@ -351,6 +351,28 @@ ASMJIT_FAVOR_SIZE Error init_func_detail(FuncDetail& func, const FuncSignature& 
       for (uint32_t arg_index = 0; arg_index < arg_count; arg_index++) {
         unpack_values(func, func._args[arg_index]);
 
+        // A 64-bit integer that was unpacked to two 32-bit values (32-bit targets) is never split between a register
+        // and the stack. FastCall, ThisCall, and VectorCall pass only 32-bit and smaller integers by registers, other
+        // conventions (RegParm) need a pair of registers - if only one is left the whole value goes to the stack and
+        // the remaining register is not used anymore (GCC and Clang behavior).
+        bool gp_pair_by_stack = false;
+        if (func._args[arg_index][1]) {
+          switch (cc.id()) {
+            case CallConvId::kFastCall:
+            case CallConvId::kThisCall:
+            case CallConvId::kVectorCall:
+              gp_pair_by_stack = true;
+              break;
+
+            default:
+              if (gpz_pos + 1 >= CallConv::kMaxRegArgsPerGroup || cc._passed_order[RegGroup::kGp].id[gpz_pos + 1] == Reg::kIdBad) {
+                gp_pair_by_stack = true;
+                gpz_pos = CallConv::kMaxRegArgsPerGroup;
+              }
+              break;
+          }
+        }
+
         for (uint32_t value_index = 0; value_index < Globals::kMaxValuePack; value_index++) {
           FuncValue& arg = func._args[arg_index][value_index];
 
@@ -364,7 +386,7 @@ ASMJIT_FAVOR_SIZE Error init_func_detail(FuncDetail& func, const FuncSignature& 
           if (TypeUtils::is_int(type_id)) {
             uint32_t reg_id = Reg::kIdBad;
 
-            if (gpz_pos < CallConv::kMaxRegArgsPerGroup) {
+            if (gpz_pos < CallConv::kMaxRegArgsPerGroup && !gp_pair_by_stack) {
               reg_id = cc._passed_order[RegGroup::kGp].id[gpz_pos];
             }
 
